@@ -61,6 +61,13 @@ def drop_renamed(rows):
                 continue
             if isinstance(v, dict) and v.get("t") == "ref" and v["table"] in RENAME.values():
                 v = dict(v, table={b: a for a, b in RENAME.items()}[v["table"]])
+            elif isinstance(v, dict) and v.get("t") == "str":
+                # a string may embed a renamed identifier (the repr of a forward-reference slot in
+                # the v2 dialect: `<NicknameSlot HH …>`): map it back before comparing
+                t = v["v"]
+                for a, b in RENAME.items():
+                    t = t.replace(b, a)
+                v = dict(v, v=t)
             fs.append([k, v])
         out.append([table, fs])
     return out
@@ -78,6 +85,14 @@ def twin_oracle(rep, rc, k):
             return a, case
     ca, cb = a.outcome.split(":")[0], b.outcome.split(":")[0]
     if ca != cb:
+        if ca == "ok" and "Reference not fulfilled" in (b.error or ""):
+            # a forward-reference slot stored (un-allocated, v3 native formula) in a hidden field or in a
+            # row of a hidden table is never asked for its id because it is never written; the visible
+            # twin is, reserves an id at write time and then fails the end-of-iteration check
+            rep.violation("C09:twin-outcome:unfulfilled-only-when-visible",
+                          f"recipe completes, its un-hidden twin fails ({(b.error or '')[:100]}): a dangling forward reference goes unnoticed when it is only held by hidden names",
+                          case, b.outcome, a.outcome)
+            return a, case
         rep.violation("C09:twin-outcome", f"recipe ends {a.outcome} ({(a.error or '')[:100]}), its un-hidden twin ends {b.outcome} ({(b.error or '')[:100]})", case, b.outcome, a.outcome)
         return a, case
     if a.outcome == "ok":
@@ -176,8 +191,21 @@ def formats_oracle(rep, rc, k):
         if scan(rep, case, "json", names):
             return
         # sql script + sqlite db
-        if os.path.exists(sqlp) and scan(rep, case, "sql-script", open(sqlp).read()):
-            return
+        if os.path.exists(sqlp):
+            # execute the script and inspect the schema (values may legitimately mention names)
+            con = sqlite3.connect(":memory:")
+            names = []
+            try:
+                con.executescript(open(sqlp).read())
+                for (tn,) in con.execute("select name from sqlite_master where type='table'").fetchall():
+                    names.append(tn)
+                    names += [r[1] for r in con.execute(f'pragma table_info("{tn}")').fetchall()]
+            except sqlite3.Error as e:
+                rep.count("sql-script-not-executable:" + type(e).__name__)
+            finally:
+                con.close()
+            if scan(rep, case, "sql-script", names):
+                return
         if os.path.exists(dbp):
             con = sqlite3.connect(dbp)
             names = []
@@ -225,6 +253,9 @@ def run(ctx, rep, findings):
     rep.rule = ("L2Gen recipes containing at least one hidden field or table (top level, nested, friends), both dialects, "
                 "1-2 iterations: real run vs real run of the un-hidden twin; L2 model vs real run; a subset through every "
                 "output format + mapping with artefact scan. Non-trivial: completed run with >= 3 rows.")
+    for f in findings:
+        if f.get("input"):
+            twin_oracle(rep, f["input"]["ast"], f["input"]["parts"][0])
     n = ctx.scale(350, 5000)
     nf = ctx.scale(45, 600)
     pending = []
